@@ -1,4 +1,11 @@
-from .registry import reg, cargotest
+from .registry import reg, cargotest as _cargotest
+
+
+def cargotest(ws, pkg, test):
+    # the watchdog also covers (re)building hydro_lang and the per-flow simulator dylibs, which takes
+    # tens of minutes on a loaded machine after any change under /repo; the monitors themselves need
+    # 1-3 min (quick) once everything is cached
+    return _cargotest(ws, pkg, test, timeout=4 * 3600)
 
 _SIM_TRUST = ("the simulator's dylib path (libloading / generated code) is exercised as shipped; it is outside Miri's reach, "
               "so only behaviour is judged")
